@@ -1,7 +1,8 @@
 (* C20 - edit_rules only removes base structures, and only those that fail the
    filter.  Theorems only (model and proofs in EditRules.v). *)
 From Coq Require Import List Arith Bool NArith.
-From Pcfg Require Import EditRules.
+From Pcfg Require Import EditRules SmallGenProofsEdit.
+From PcfgGen Require Import Small_edit_gen.
 Import ListNotations.
 
 (* for lines as the trainer writes them (structure = concatenation of its
@@ -29,5 +30,57 @@ Example C20_refuted_context_label :
   keep (fun _ _ => true) {| min_length := 0; max_length := 9; terminal_set := None; regexes := [] |} l = true.
 Proof. vm_compute. repeat split; discriminate. Qed.
 
+(* ---- translator tie: the Python text of check_regex, edit_terminal_set, edit_length
+   and of the run of passes in edit_rules, translated on every run into
+   gen/Small_edit_gen.v, IS the model the theorems above are about.  The Python
+   works on the text of Grammar/grammar.txt; [render ls] is the text of the lines
+   ls (structure TAB probability LF), [line_ok]: no TAB / LF inside the two fields
+   and a probability text str.strip() leaves alone.  For every regex oracle,
+   isspace predicate and value of a subscript that raises in Python. ---- *)
+Theorem C20_source_check_regex_is_model :
+  forall (re_search : str -> str -> bool) (isspace : N -> bool) (undef_str : str) rs ls,
+  Forall (line_ok isspace) ls ->
+  py_check_regex re_search isspace undef_str (render ls) rs = render (filter (regex_keeps re_search rs) ls).
+Proof. exact small_check_regex_eq. Qed.
+
+Theorem C20_source_edit_terminal_set_is_model :
+  forall (isspace : N -> bool) (undef_str : str) set ls,
+  Forall (line_ok isspace) ls ->
+  py_edit_terminal_set isspace undef_str (render ls) set = render (opt_filter (edit_set_line set) ls).
+Proof. exact small_edit_terminal_set_eq. Qed.
+
+Theorem C20_source_edit_length_is_model :
+  forall (isspace : N -> bool) (undef_str : str) mn mx ls,
+  Forall (line_ok isspace) ls ->
+  py_edit_length isspace undef_str (render ls) mn mx =
+  match map_res (edit_length_line mn mx) ls with Ok ls' => Ok (render ls') | Raise => Raise end.
+Proof. exact small_edit_length_eq. Qed.
+
+(* config.get('terminal_set') is a non-empty list or False (parse_command_line) *)
+Theorem C20_source_edit_passes_is_model :
+  forall (re_search : str -> str -> bool) (isspace : N -> bool) (undef_str : str) c ls,
+  Forall (line_ok isspace) ls -> terminal_set c <> Some [] ->
+  py_edit_passes re_search isspace undef_str c (render ls) =
+  match edit re_search c ls with Ok ls' => Ok (render ls') | Raise => Raise end.
+Proof. exact small_edit_passes_eq. Qed.
+
+(* the main statement transported to the source: the text edit_rules writes back
+   is the text of the original lines filtered by [keep], nothing else changed *)
+Theorem C20_source_filter :
+  forall (re_search : str -> str -> bool) (isspace : N -> bool) (undef_str : str) c ls,
+  Forall (line_ok isspace) ls -> terminal_set c <> Some [] ->
+  Forall well_formed ls -> Forall (fun l => total_len (tokens (gstruct l)) <> None) ls ->
+  py_edit_passes re_search isspace undef_str c (render ls) = Ok (render (filter (keep re_search c) ls)).
+Proof. exact small_edit_passes_filter. Qed.
+
+Example C20_source_filter_example :
+  Forall (line_ok ex_isspace) ex_lines /\ terminal_set ex_config <> Some [] /\
+  Forall well_formed ex_lines /\ Forall (fun l => total_len (tokens (gstruct l)) <> None) ex_lines /\
+  py_edit_passes (fun _ _ => true) ex_isspace [] ex_config (render ex_lines)
+  = Ok (render [ {| gstruct := [65; 52; 68; 50]%N; gprob := [48; 46; 53]%N |} ]).
+Proof. exact small_edit_example. Qed.
+
 Print Assumptions C20_filter.
+Print Assumptions C20_source_edit_passes_is_model.
+Print Assumptions C20_source_filter.
 Print Assumptions C20_length_bound_labels.
